@@ -10,7 +10,7 @@ import (
 func init() {
 	register(&Check{
 		ID: "C12", Level: "exploration", QuickSecs: 100, ThoroughSecs: 1200,
-		Rule:        "grammars without blocks; a nested-call family (64 grammars whose predicate block - reporting no error - calls Parse of the same package on 4 other inputs before returning); a terminal spelling family (20 terminals: literals of every quoting / escape form / i, classes with ranges, ^, i, escapes, Unicode classes, non-ASCII, the empty and the inverted empty class; alone, under !, in a choice, in a loop before !.); (2 generation flag sets; 4, adding -optimize-basic-latin, for grammars with classes) over terminals {'a',\"ab\",\"b\"i,[ab],[^a],.,\"\"} with !/& nesting up to depth 3, seq/choice, two-rune literals failing on the second rune, terminals starting at the same offset on different paths (N<=5 quick, 6 thorough); all inputs over {a,b,\\n,é} up to L=3 (4); for every NON-matching input the complete error (position line:col (offset) of the farthest failure and the sorted, de-duplicated expected list with !-prefixed entries and EOF last) is compared with the one derived from the reference interpreter's terminal-attempt list. Non-trivial = expected list has >= 2 entries or an inverted entry.",
+		Rule:        "grammars without blocks; a nested-call family (128 grammars: the nested call before and after the outer call recorded its farthest failure; whose predicate block - reporting no error - calls Parse of the same package on 4 other inputs before returning); a terminal spelling family (20 terminals: literals of every quoting / escape form / i, classes with ranges, ^, i, escapes, Unicode classes, non-ASCII, the empty and the inverted empty class; alone, under !, in a choice, in a loop before !.); (2 generation flag sets; 4, adding -optimize-basic-latin, for grammars with classes) over terminals {'a',\"ab\",\"b\"i,[ab],[^a],.,\"\"} with !/& nesting up to depth 3, seq/choice, two-rune literals failing on the second rune, terminals starting at the same offset on different paths (N<=5 quick, 6 thorough); all inputs over {a,b,\\n,é} up to L=3 (4); for every NON-matching input the complete error (position line:col (offset) of the farthest failure and the sorted, de-duplicated expected list with !-prefixed entries and EOF last) is compared with the one derived from the reference interpreter's terminal-attempt list. Non-trivial = expected list has >= 2 entries or an inverted entry.",
 		Assumptions: []string{"E1 loader", "reference failure tracking: failures under even predicate polarity, matches under odd polarity"},
 		Run:         runC12,
 	})
@@ -108,23 +108,30 @@ func runC12(c *ShardCtx) {
 					if !c.Mine(idx) {
 						continue
 					}
-					g := &peg.Grammar{Rules: []*peg.Rule{{Name: "S", Expr: peg.Choice(peg.Seq(t1(), peg.AndCode(0), t2(), peg.Not(peg.Any())), peg.Seq(t3(), peg.Lit("b"), peg.Lit("b")))}}}
-					peg.Renumber(g, 1)
-					peg.AssignArgs(g)
-					var scripts []map[int]*rtapi.Block
-					for _, nin := range []string{"", "b", "abx", "aaaa"} {
-						nin := nin
-						s := map[int]*rtapi.Block{}
-						for _, b := range g.Blocks() {
-							s[b.ID] = &rtapi.Block{Pred: rtapi.PredTrue, Nested: &nin}
+					for shape := 0; shape < 2; shape++ {
+						g := &peg.Grammar{Rules: []*peg.Rule{{Name: "S", Expr: peg.Choice(peg.Seq(t1(), peg.AndCode(0), t2(), peg.Not(peg.Any())), peg.Seq(t3(), peg.Lit("b"), peg.Lit("b")))}}}
+						if shape == 1 {
+							// the nested call happens AFTER the outer call has recorded its farthest failure
+							// (first alternative), in an alternative that fails earlier
+							g = &peg.Grammar{Rules: []*peg.Rule{{Name: "S", Expr: peg.Choice(peg.Seq(t1(), t2(), peg.Lit("x")), peg.Seq(peg.AndCode(0), t3(), peg.Lit("y")), peg.Seq(peg.Lit("b"), peg.AndCode(0), peg.Lit("z")))}}}
 						}
-						scripts = append(scripts, s)
+						peg.Renumber(g, 1)
+						peg.AssignArgs(g)
+						var scripts []map[int]*rtapi.Block
+						for _, nin := range []string{"", "b", "abx", "aaaa"} {
+							nin := nin
+							s := map[int]*rtapi.Block{}
+							for _, b := range g.Blocks() {
+								s[b.ID] = &rtapi.Block{Pred: rtapi.PredTrue, Nested: &nin}
+							}
+							scripts = append(scripts, s)
+						}
+						f := *fam
+						f.scripts = scripts
+						f.confEvery = 7
+						f.cmp.SkipLog = true // what the predicate block sees (position) is C02's subject
+						runGrammar(c, g, &f)
 					}
-					f := *fam
-					f.scripts = scripts
-					f.confEvery = 7
-					f.cmp.SkipLog = true // what the predicate block sees (position) is C02's subject
-					runGrammar(c, g, &f)
 				}
 			}
 		}
